@@ -85,6 +85,9 @@ def run(tier):
     chk.cov["programs"] = len(mine)
     chk.cov["disagreements_checked"] = len(mine)
     chk.cov["accepted"] = acc
+    # the same rejections as run-time failures (RLBOX_NO_COMPILE_CHECKS, no exceptions): each forbidden use ends the process
+    import abortcommon
+    abortcommon.judge(chk, wd, "C01", driver="nocc_driver")
     chk.count(evaluations=len(mine), distinct=len(set((e["form"], e["x"]["k"], e["x"]["t"], e["y"]["k"]) for e in mine)), traces=1)
     for ev in [e for e in mine if e["verdict"] == "accept"][:2] + [e for e in mine if e["verdict"] == "reject"][:2]:
         chk.sample({k: ev[k] for k in ("text", "cls", "verdict", "rk")})
